@@ -11,7 +11,10 @@ per axis, the default patch type) are tabulated from the working tree into coq/G
 Direct oracle (independent of the Coq model): the property itself, stated with the implementation as
 its own reference on the simplest possible history - after every write the parsed file must equal the
 file of a freshly built equivalent mesh (one assemble, one write); after every backport every
-operation must have the points of the vertices of its block and all other operations their old points.
+operation must have the points of the vertices of its block and all other operations their old points; and the round
+trip itself: at every clear / backport of a mesh not touched since its assembly, the file written after
+`prefix; clear|backport` must list the same patches IN THE SAME ORDER with the same types and settings (for clear: the
+same faces and the same file) as the file written after `prefix` alone (both prefixes replayed on new meshes).
 """
 import json
 import math
@@ -588,6 +591,11 @@ class Oracle:
     def assembled(self):
         return self.snap is not None and len(self.snap["ops"]) > 0
 
+    def untouched(self):
+        """depot, deleted set and merged pairs are those of the last assembly (what clear / backport re-assemble)"""
+        live = [k for k in self.depot if k not in self.deleted]
+        return live == [k for (k, _d) in self.snap["ops"]] and self.snap["nmerge"] == len(self.merges)
+
     def fresh(self):
         """a new mesh equivalent to what the history has built: the operations of the last assembly, added once,
         assembled once, vertices moved; patch types, default patch and merged pairs as set through the mesh"""
@@ -657,6 +665,36 @@ class Oracle:
         return None
 
 
+def boundary_of(parsed):
+    """'boundary' as written: [(name, properties, faces as a sorted list)] in file order"""
+    return [(n, parsed["boundary"][n][0], sorted(map(tuple, parsed["boundary"][n][1] or []))) for n in parsed["boundary_order"]]
+
+
+def roundtrip_failure(ops_desc, prefix, c, workdir, moved=False):
+    """the law itself on the implementation: the file written after `prefix; c` (c = clear or backport, the model not
+    touched since its assembly) lists the same patches in the same order with the same types and settings (and, for
+    clear, the same faces) as the file written after `prefix` alone; None if it does (or if either write fails)"""
+    files = []
+    for h in (prefix, prefix + [c]):
+        im = Impl(ops_desc, workdir)
+        try:
+            for x in h:
+                im.call(x)
+            files.append(im.call(["write"])[1])
+        except Exception:
+            return None
+    a, b = boundary_of(files[0]), boundary_of(files[1])
+    if [x[0] for x in a] != [x[0] for x in b]:
+        return ("order", "after %s the patches are written as %s, without it as %s" % (c[0], [x[0] for x in b], [x[0] for x in a]))
+    if [x[1] for x in a] != [x[1] for x in b]:
+        return ("properties", "after %s the patch types/settings are %s, without it %s" % (c[0], [x[:2] for x in b], [x[:2] for x in a]))
+    if c[0] == "clear" and a != b:
+        return ("faces", "after clear the faces of the patches differ")
+    if c[0] == "clear" and not moved and files_differ(files[0], files[1]):
+        return ("file", "after clear the written file differs in " + files_differ(files[0], files[1]))
+    return None
+
+
 def oracle_history(ops_desc, history, workdir):
     """None if the implementation satisfies the property on this history, else a description of the failure"""
     with warnings.catch_warnings():
@@ -668,6 +706,10 @@ def oracle_history(ops_desc, history, workdir):
         for step, c in enumerate(history):
             if not orc.wellformed(c):
                 return dict(illformed=True, step=step)
+            if c[0] in ("clear", "backport") and orc.assembled() and orc.untouched():
+                rt = roundtrip_failure(ops_desc, history[:step], c, workdir, moved=bool(orc.snap["moves"]))
+                if rt:
+                    return dict(step=step, call=c, why="round trip: " + rt[1], sig="C12:%s:roundtrip:boundary-%s" % (c[0], rt[0]))
             try:
                 got = im.call(c)
                 err = None
@@ -718,9 +760,11 @@ def oracle_history(ops_desc, history, workdir):
 # generation of histories (dynamic: follows the state of the implementation)
 
 
-def gen_history(rng, ops_desc, nmax, workdir, add_all=False, again=0.0, calm=False):
+def gen_history(rng, ops_desc, nmax, workdir, add_all=False, again=0.0, calm=False, life=0.0):
     """returns (history, events, error); again: probability of one more write at the very end (write; write);
-    calm: deletions and patch merges (both take chopped blocks / shared vertices away) are drawn four times less often"""
+    calm: deletions and patch merges (both take chopped blocks / shared vertices away) are drawn four times less often;
+    life: probability of a tail `[assemble]; modify_patch (patches the assembly created, new names, repeated) x 1..3;
+    [write]; clear | backport; [modify]; write` - modifications that FOLLOW the assembly, then a round trip"""
     with warnings.catch_warnings():
         warnings.simplefilter("ignore")
         im = Impl(ops_desc, workdir)
@@ -813,6 +857,44 @@ def gen_history(rng, ops_desc, nmax, workdir, add_all=False, again=0.0, calm=Fal
             hist.append(["write"])
             try:
                 events.append(im.call(["write"]))
+            except Exception as e:
+                return hist, events, type(e).__name__
+        if rng.random() < life and added and len(deleted) < len(set(added)):
+            tail = []
+            if not len(im.mesh.vertices) > 0:
+                tail.append(["assemble"])
+            try:
+                for c in tail:
+                    hist.append(c)
+                    im.call(c)
+                made = list(im.mesh.patch_list.patches.keys())
+                used = []
+                for _ in range(rng.randint(1, 3)):
+                    q = rng.random()
+                    if used and q < 0.25:
+                        name = rng.choice(used)
+                    elif made and q < 0.8:
+                        name = rng.choice(made)
+                    else:
+                        name = rng.choice(NAMES + ["px"])
+                    used.append(name)
+                    c = ["modify", name, rng.choice(KINDS), rng.choice([None, [], [rng.choice(SETTINGS)], [SETTINGS[0], SETTINGS[2]]])]
+                    hist.append(c)
+                    im.call(c)
+                seq = []
+                if rng.random() < 0.4:
+                    seq.append(["write"])
+                seq.append(["clear"] if rng.random() < 0.6 else ["backport"])
+                if rng.random() < 0.3:
+                    seq.append(["modify", rng.choice(used + NAMES), rng.choice(KINDS), rng.choice([None, [SETTINGS[1]]])])
+                if rng.random() < 0.3:
+                    seq.append(["clear"] if rng.random() < 0.5 else ["backport"])
+                seq.append(["write"])
+                for c in seq:
+                    hist.append(c)
+                    ev = im.call(c)
+                    if ev is not None:
+                        events.append(ev)
             except Exception as e:
                 return hist, events, type(e).__name__
         while rng.random() < again:
@@ -1162,7 +1244,7 @@ class C12(Prop):
     prebuilt = ["Base/Hex.v", "Model/Propagate.v", "Proofs/PropagateBasics.v", "Proofs/PropagateTerm.v", "Proofs/PropagateInv.v",
                 "Proofs/PropagateInit.v", "Proofs/PropagateShort.v", "Proofs/PropagateFinal.v", "Model/C04_Payload.v",
                 "Model/C12_Regrade.v", "Proofs/C12_Regrade.v", "Model/C12_MeshLife.v", "Proofs/C12_Lists.v",
-                "Proofs/C12_MeshLife.v", "Proofs/C12_Refute.v", "Proofs/C12_Tolerance.v"]
+                "Proofs/C12_MeshLife.v", "Proofs/C12_Roundtrip.v", "Proofs/C12_Refute.v", "Proofs/C12_Tolerance.v"]
     gen_dependent_files = ["Gen/C12/Tables.v"]
     property_files = ["Properties/C12.v"]
     trusted = [
@@ -1199,10 +1281,11 @@ class C12(Prop):
         for _ in range(n):
             if prop:
                 ops_desc = gen_prop_model(ctx.rng)
-                hist, events, err = gen_history(ctx.rng, ops_desc, nmax, ctx.work, add_all=ctx.rng.random() < 0.9, again=0.75, calm=True)
+                hist, events, err = gen_history(ctx.rng, ops_desc, nmax, ctx.work, add_all=ctx.rng.random() < 0.9, again=0.75, calm=True, life=0.15)
             else:
                 ops_desc = gen_model(ctx.rng, rich)
-                hist, events, err = gen_history(ctx.rng, ops_desc, nmax, ctx.work, add_all=ctx.rng.random() < (0.7 if rich else 0.3))
+                hist, events, err = gen_history(ctx.rng, ops_desc, nmax, ctx.work, add_all=ctx.rng.random() < (0.7 if rich else 0.3),
+                                                life=0.4)
             out.append((ops_desc, hist, events, err))
         return out
 
@@ -1212,10 +1295,12 @@ class C12(Prop):
                     "set_default_patch/merge_patches/write on 1..4 lofts of a jittered integer lattice - every axis chopped, "
                     "or (second class) corners listed from a random corner in a random orientation and chops on one axis per "
                     "family of block directions (sometimes two, all, none, or conflicting), one to three sections, the rest "
-                    "propagated, most histories ending in write; write; compared inside Coq with "
+                    "propagated, most histories ending in write; write; 40 %% of the histories of the first class end in a tail "
+                    "`[assemble]; modify_patch x 1..3 (patches the assembly created, new names, repeated); [write]; clear | "
+                    "backport; [modify]; [clear | backport]; write`; compared inside Coq with "
                     "`run fixed tb (init store) history`: every written file (vertices, hex indexes, counts, simple/edgeGrading "
                     "choice with the section counts of each printed wire, patches with type/settings/faces, defaultPatch, "
-                    "mergePatchPairs), every operation's points after each backport, and the exception class that ends the "
+                    "mergePatchPairs; 'boundary' in the order written), every operation's points after each backport, and the exception class that ends the "
                     "history; non-trivial = at least one of clear/backport/delete and a write after it, or two writes; "
                     "distinct by (model, history)" % ctx.n(12, 30))
         import time
